@@ -100,7 +100,7 @@ func main() {
 		}
 	}
 
-	n := hv.Scale(1400, 30000)
+	n := hv.Scale(1200, 30000)
 	for c := 0; c < n; c++ {
 		class := hv.Pick(r, []string{"file-only", "file-only", "grants", "grants", "mixed", "mixed", "long-line"})
 		if class == "long-line" && !r.Chance(8) {
@@ -174,6 +174,122 @@ func main() {
 			}
 		}
 		hs = append(hs, hist{class, ops})
+	}
+	// one long-lived server, files replaced in place: the answer must follow the file as it is NOW.
+	// Every canonical key line has the same length, so rotating a key (or turning it into garbage
+	// of the same length) changes neither the size nor - unless the writer advances it - the
+	// modification time of the file.
+	sameLenGarbage := func(k int) string {
+		l := ax.KeyLine(pool[k])
+		switch r.Intn(4) {
+		case 0:
+			return "#" + l[1:] // a comment of equal length
+		case 1:
+			return strings.Replace(l, "hop-dh-v1-", "hop-dh-v2-", 1)
+		case 2:
+			return l[:len(l)-1] + "!" // not base64
+		}
+		return strings.Repeat("x", len(l))
+	}
+	nr := hv.Scale(260, 4000)
+	for c := 0; c < nr; c++ {
+		var ops []*ax.Op
+		us := []string{"alice", "bob", "carol"}[:2+r.Intn(2)]
+		lines := map[string][]string{}
+		keysOf := map[string][]int{} // key index per line, -1 = not a key line
+		mt := map[string]int64{}
+		advance := r.Chance(25)       // this writer advances the modification time on every rewrite
+		write := func(u string) {
+			o := &ax.Op{Kind: "SF", User: u, FKind: ax.FFile, Content: []byte(strings.Join(lines[u], "\n") + "\n")}
+			if advance {
+				mt[u] += 1 + int64(r.Intn(3))
+				o.MTime = 1000 + mt[u]
+			} else if r.Chance(30) {
+				o.MTime = 1000 // a fixed, non-zero time that never moves
+			}
+			ops = append(ops, o)
+		}
+		if r.Chance(50) {
+			ops = append(ops, &ax.Op{Kind: "EN", B: true})
+		}
+		for _, u := range us {
+			n := 1 + r.Intn(3)
+			for i := 0; i < n; i++ {
+				k := r.Intn(4)
+				lines[u] = append(lines[u], ax.KeyLine(pool[k]))
+				keysOf[u] = append(keysOf[u], k)
+			}
+			write(u)
+		}
+		login := func(u string, k int) {
+			if r.Chance(25) {
+				ops = append(ops, &ax.Op{Kind: "AK", User: u, Key: k})
+			} else {
+				ops = append(ops, &ax.Op{Kind: "LG", User: u, Key: k})
+			}
+		}
+		L := 4 + r.Intn(8)
+		for i := 0; i < L; i++ {
+			u := hv.Pick(r, us)
+			if r.Chance(45) {
+				// a login that fills whatever the server may remember about the file
+				if len(keysOf[u]) > 0 && r.Chance(70) {
+					if k := hv.Pick(r, keysOf[u]); k >= 0 {
+						login(u, k)
+						continue
+					}
+				}
+				login(u, r.Intn(len(pool)))
+				continue
+			}
+			// rewrite u's file in place
+			j := r.Intn(len(lines[u]))
+			oldK := keysOf[u][j]
+			newK := -1
+			switch x := r.Intn(100); {
+			case x < 40: // key A -> key B, same length
+				newK = r.Intn(len(pool))
+				lines[u][j] = ax.KeyLine(pool[newK])
+			case x < 65: // key -> garbage of the same length (the file no longer parses)
+				lines[u][j] = sameLenGarbage(r.Intn(4))
+			case x < 75 && len(lines[u]) > 1: // permutation of two lines
+				i2 := (j + 1) % len(lines[u])
+				lines[u][j], lines[u][i2] = lines[u][i2], lines[u][j]
+				keysOf[u][j], keysOf[u][i2] = keysOf[u][i2], keysOf[u][j]
+				oldK, newK = keysOf[u][i2], keysOf[u][j]
+			case x < 85: // garbage / anything -> key (a repaired file)
+				newK = r.Intn(4)
+				lines[u][j] = ax.KeyLine(pool[newK])
+			case x < 93: // different length: one more line
+				newK = r.Intn(len(pool))
+				lines[u] = append(lines[u], ax.KeyLine(pool[newK]))
+				keysOf[u] = append(keysOf[u], newK)
+				j = len(lines[u]) - 1
+				oldK = -1
+			default: // different length: white space added
+				lines[u][j] = " " + lines[u][j]
+				newK = oldK
+			}
+			if x := keysOf[u]; j < len(x) {
+				x[j] = newK
+			}
+			write(u)
+			// old and new keys right after the rewrite, other users in between
+			if oldK >= 0 {
+				login(u, oldK)
+			}
+			if r.Chance(40) {
+				o := hv.Pick(r, us)
+				login(o, r.Intn(len(pool)))
+			}
+			if newK >= 0 {
+				login(u, newK)
+			}
+			if oldK >= 0 && r.Chance(30) {
+				login(u, oldK)
+			}
+		}
+		hs = append(hs, hist{"rotate-in-place", ops})
 	}
 	cases := make([]func(), len(hs))
 	for i := range hs {
